@@ -9,6 +9,12 @@ pub fn profile(name: &str) -> Option<GenFn> {
         "handles" => genp::handles,
         "backpressure" => genp::backpressure,
         "owning" => genp::owning,
+        "timers" => genp::timers,
+        "timeout" => genp::timeout,
+        "restart" => genp::restart,
+        "stream" => genp::stream,
+        "liveness" => genp::liveness,
+        "kinds" => genp::kinds,
         _ => return None,
     })
 }
